@@ -151,11 +151,18 @@ class InterestTreeNode:
         self.pending_list.append(
             PendingIntEntry(future, deadline, param.can_be_prefix, param.must_be_fresh, validator, implicit_sha256))
 
-    def nack_interest(self, nack_reason: int) -> bool:
+    def nack_interest(self, nack_reason: int, implicit_sha256: enc.BinaryStr = b'') -> bool:
+        # Only the Interests named by the Nack are affected: those sharing this node but
+        # differing in the implicit digest component stay pending
+        remaining = []
         for entry in self.pending_list:
-            if not entry.future.done():
-                entry.future.set_exception(types.InterestNack(nack_reason))
-        return True
+            if entry.implicit_sha256 == implicit_sha256:
+                if not entry.future.done():
+                    entry.future.set_exception(types.InterestNack(nack_reason))
+            else:
+                remaining.append(entry)
+        self.pending_list = remaining
+        return not remaining
 
     def satisfy(self, data: types.DataTuple, is_prefix: bool) -> bool:
         unsatisfied_entries = []
@@ -590,12 +597,18 @@ class NDNApp:
             del self._pit[prefix]
 
     def _on_nack(self, name: enc.FormalName, nack_reason: int):
+        # Interests are stored without their implicit digest component (see express_raw_interest)
+        if name and enc.Component.get_type(name[-1]) == enc.Component.TYPE_IMPLICIT_SHA256:
+            implicit_sha256 = enc.Component.get_value(name[-1])
+            name = name[:-1]
+        else:
+            implicit_sha256 = b''
         try:
             node = self._pit[name]
         except KeyError:
             node = None
         if node:
-            if node.nack_interest(nack_reason):
+            if node.nack_interest(nack_reason, implicit_sha256):
                 del self._pit[name]
 
     def express(self, name: enc.NonStrictName, validator: Validator,
